@@ -121,8 +121,8 @@ class ReqGen(cc.Gen1):
 
 
 class ResGen(cj.GenJ):
-    """TL1 result values: GenJ (JSON-relevant primitives, dictionary keys within the guard of C05's F1: valid UTF-8) whose floats may leave
-    the guard of L2/L3 (`-0.0`, NaN payloads) when `wild`."""
+    """TL1 result values: GenJ (JSON-relevant primitives, dictionary keys within the guard of C05's F1: valid UTF-8) whose floats leave
+    the guard of L3 (NaN payloads; plus extra `-0.0`, harmless for JSON since the repair of L2) when `wild`."""
 
     def __init__(self, sc, rng, big=False, wild=False):
         super().__init__(sc, rng, big=big, guard=True)
